@@ -5,7 +5,7 @@ From Coq Require Import ZArith String List Bool Lia.
 From PushModel Require Import Base.Sx Base.Machine Base.ListOps Base.F32 Model.Item Model.GraphT Model.State
   Model.InstrBase Model.IScalar Model.ICode Model.Registry Model.Interp
   Model.IVector Model.RegistryVec Model.IList Model.IIo Model.RegistryListIo Model.IGraph Model.RegistryGraph
-  Model.RegistryAll Spec.Footprint Proofs.Frame Proofs.FrameProofs.
+  Model.INeighbor Model.RegistryNbr Model.RandomGen Model.IRand Model.RegistryRand Model.RegistryAll Spec.Footprint Proofs.Frame Proofs.FrameProofs.
 Import ListNotations.
 Open Scope string_scope.
 
@@ -52,6 +52,18 @@ Ltac unfold_graph H :=
     graph_edge_add graph_query graph_node_neighbors graph_node_predecessors graph_node_successors
     graph_edge_get_weight graph_edge_history_gen graph_edge_history graph_edge_set_weight set_top
     push_int push_bool push_float push_code push_exec push_name rbind pure purep fst snd] in H.
+
+Ltac unfold_nbr H :=
+  cbv beta iota zeta delta [
+    list_neighbor_ids list_neighbor_vals list_neighbor_bvals list_neighbor_ivals list_neighbor_fvals
+    push_bvec push_ivec push_fvec
+    push_int push_bool push_float push_code push_exec push_name rbind pure purep fst snd] in H.
+(* [fst] / [snd] of a drawn (value, tape) pair stay folded: they are scrutinees *)
+Ltac unfold_rand H :=
+  cbv beta iota zeta delta [
+    boolean_rand integer_rand float_rand_g float_rand code_rand name_rand name_rand_bound
+    bool_vector_rand_g bool_vector_rand int_vector_rand float_vector_rand_g float_vector_rand
+    push_int push_bool push_float push_code push_exec push_name rbind pure purep] in H.
 
 (* evaluates the `filter` of vec_stack_family (string comparisons on literals only) *)
 Ltac open_vec_table :=
@@ -186,16 +198,38 @@ Section Families.
       specialize (Hf (fst e) (in_map fst _ _ Hin)). destruct (fp_lookup fp1 (fst e)); [discriminate|reflexivity].
   Qed.
 
+  Ltac frame_tac_nbr :=
+    let p := fresh "p" in let w := fresh "w" in let s := fresh "s" in
+    let w' := fresh "w'" in let s' := fresh "s'" in let H := fresh "H" in
+    intros p w s w' s' H; unfold_nbr H; frame_finish H.
+  Ltac frame_tac_rand :=
+    let p := fresh "p" in let w := fresh "w" in let s := fresh "s" in
+    let w' := fresh "w'" in let s' := fresh "s'" in let H := fresh "H" in
+    intros p w s w' s' H; unfold_rand H; frame_finish H.
+
+  Lemma nbr_framed : table_framed tbl_nbr fp_nbr.
+  Proof. unfold table_framed, tbl_nbr. Time table_tac frame_tac_nbr. Time Qed.
+
+  Lemma rand_framed instrs : table_framed (tbl_rand instrs) fp_rand.
+  Proof. unfold table_framed, tbl_rand. Time table_tac frame_tac_rand. Time Qed.
+
   (* the whole registry: one [table_framed_app] per family *)
-  Theorem all_framed : table_framed full_table fp_all.
+  Lemma base_framed : table_framed base_table fp_base.
   Proof.
-    unfold full_table, fp_all.
+    unfold base_table, fp_base.
     apply (table_framed_app _ _ _ _ core_framed); [|vm_compute; reflexivity].
     apply (table_framed_app _ _ _ _ bvec_framed); [|vm_compute; reflexivity].
     apply (table_framed_app _ _ _ _ ivec_framed); [|vm_compute; reflexivity].
     apply (table_framed_app _ _ _ _ fvec_framed); [|vm_compute; reflexivity].
     apply (table_framed_app _ _ _ _ list_framed); [|vm_compute; reflexivity].
     apply (table_framed_app _ _ _ _ io_framed); [|vm_compute; reflexivity].
-    exact graph_framed.
+    apply (table_framed_app _ _ _ _ graph_framed); [|vm_compute; reflexivity].
+    exact nbr_framed.
+  Qed.
+  Theorem all_framed : table_framed full_table fp_all.
+  Proof.
+    unfold full_table, fp_all.
+    apply (table_framed_app _ _ _ _ base_framed (rand_framed _)).
+    rewrite tbl_rand_names. vm_compute. reflexivity.
   Qed.
 End Families.
